@@ -60,6 +60,8 @@ def setup(backend, wdir):
     S.mk_bucket(ds, "A")
     if backend != "memory":  # ids are global in the SQL backends: the passive bucket's ids are foreign to A
         BL.FOREIGN_ID[0] = max(t[0] for t in S.dump_bucket(ds, "passive"))
+    else:
+        BL.FOREIGN_ID[0] = None
     return ds
 
 
